@@ -474,4 +474,173 @@ theorem en_token (s : St) (hi : Inv s) (o : Nat) (hl : (s.obj o).live = true)
         right; right; right
         exact ⟨0, by simp [step, hl, hh, hq]⟩
 
+/-! ### The restart state within one activation (helper abort under an equal tag) -/
+
+/-- an effective `setex` resets a restart state that was not `signaled` to `signaled` -/
+theorem setex_eff_step (s s' : St) (e : Ev) (h : step s e = some s') (o : Nat) (h3 : isSetex o e = true) :
+    (s'.obj o).w.ex = exSignaled ∧ (s.obj o).w.ex ≠ exSignaled ∧
+    ∃ a, (s.obj o).owner = some a ∧ (s.obj o).inPhase = true := by
+  cases e with
+  | setex a o' b af =>
+    simp only [isSetex, Bool.and_eq_true, beq_iff_eq, bne_iff_ne] at h3
+    obtain ⟨hoo, hne⟩ := h3
+    subst hoo
+    simp only [step] at h
+    split at h
+    · rename_i hg
+      simp only [Option.some.injEq] at h; subst h
+      obtain ⟨hl, ho, hph, hb, haf⟩ := hg
+      refine ⟨by subst haf; simp [upd], ?_, a, ho, hph⟩
+      intro hex
+      exact hne (by subst hb; subst haf; exact W_ext _ _ rfl hex rfl)
+    · simp at h
+  | _ => simp [isSetex] at h3
+
+/-- `ObsX x lw le`: like `Obs`, for the restart state: if no transition into pending happened since
+    the word `lw` (active) was observed and the object is still active (so, by `Obs`, in the very
+    same activation), its restart state is the observed one, or the observed one was still to be
+    fetched (not `signaled`) and has been reset since -/
+def ObsX (x : Obj) (lw : W) (le : Nat) : Prop :=
+  le = x.epoch → lw.st = sActive → x.w.st = sActive →
+    (x.w.ex = lw.ex ∨ (lw.ex ≠ exSignaled ∧ x.w.ex = exSignaled))
+
+theorem obsx_now (x : Obj) : ObsX x x.w x.epoch := fun _ _ _ => Or.inl rfl
+
+theorem obsx_step (s s' : St) (e : Ev) (hi : Inv s) (h : step s e = some s') (o : Nat) (lw : W) (le : Nat)
+    (hobs : Obs (s.obj o) lw le) (hx : ObsX (s.obj o) lw le) : ObsX (s'.obj o) lw le := by
+  intro heq hact hact'
+  have hm := (obj_step s s' e h o).1
+  have hle := hobs.1
+  have he : (s'.obj o).epoch = (s.obj o).epoch := by omega
+  have hnp := (hobs.2 (by omega) hact).1
+  obtain ⟨h1, _, h3⟩ := ex_step s s' e hi h o he hnp hact'
+  have hx0 := hx (by omega) hact h1
+  rcases h3 with h3 | h3
+  · rw [h3]; exact hx0
+  · obtain ⟨h4, h5, _⟩ := setex_eff_step s s' e h o h3
+    rcases hx0 with h6 | h6
+    · right; exact ⟨by rw [← h6]; exact h5, h4⟩
+    · exact absurd h6.2 h5
+
+structure InvX (s : St) : Prop where
+  helpers : ∀ o h, h ∈ (s.obj o).helpers → ObsX (s.obj o) h.1 h.2
+  loaded : ∀ a o lw le, (s.act a).sts = .loaded o lw le → ObsX (s.obj o) lw le
+  sas : ∀ a o cur prev he ce, (s.act a).sas = some (o, cur, prev, he, ce) → he = ce → cur.st = sActive →
+      (cur.ex = prev.ex ∨ (prev.ex ≠ exSignaled ∧ cur.ex = exSignaled))
+
+theorem invx_init : InvX init := by
+  refine ⟨?_, ?_, ?_⟩
+  · intro o h hm; simp [init] at hm
+  · intro a o lw le hm; simp [init] at hm
+  · intro a o c p he ce hm; simp [init] at hm
+
+theorem step_invx (s s' : St) (e : Ev) (hi : Inv2 s) (hx : InvX s) (h : step s e = some s') : InvX s' := by
+  refine ⟨?_, ?_, ?_⟩
+  · intro o hp hm
+    rcases helpers_step s s' e h o hp hm with hk | ⟨a, hk⟩
+    · exact obsx_step s s' e hi.obj h o hp.1 hp.2 (hi.helpers o hp hk) (hx.helpers o hp hk)
+    · exact obsx_step s s' e hi.obj h o hp.1 hp.2 (hi.loaded a o hp.1 hp.2 hk) (hx.loaded a o hp.1 hp.2 hk)
+  · intro a o lw le hm
+    rcases loaded_step s s' e h a o lw le hm with hk | ⟨h1, h2⟩
+    · exact obsx_step s s' e hi.obj h o lw le (hi.loaded a o lw le hk) (hx.loaded a o lw le hk)
+    · subst h1; subst h2; exact obsx_now _
+  · intro a o cur prev he ce hm heq hc
+    rcases sas_step s s' e h a o cur prev he ce hm with hk | ⟨h1, h2, h3⟩
+    · exact hx.sas a o cur prev he ce hk heq hc
+    · have hact := (hi.obj o).helpersActive (prev, he) h1
+      subst h2; subst h3
+      exact hx.helpers o (prev, he) h1 heq hact hc
+
+theorem invx_of_accepted {log : List Ev} {s : St} (h : runLog step init log = some s) : Inv2 s ∧ InvX s :=
+  inv_of_runLog (fun s => Inv2 s ∧ InvX s)
+    (fun s e s' hh hs => ⟨step_inv2 s s' e hh.1 hs, step_invx s s' e hh.1 hh.2 hs⟩) ⟨inv2_init, invx_init⟩ h
+
+/-- within one activation (no transition into pending, target not pending at the start and active
+    at the end) the tag is constant and the restart state changes only by an effective `setex` -/
+theorem ex_log (o : Nat) : ∀ (seg : List Ev) (s s' : St), Inv s → runLog step s seg = some s' →
+    (s'.obj o).epoch = (s.obj o).epoch → pendingish (s.obj o).w = false → (s'.obj o).w.st = sActive →
+    (s.obj o).w.st = sActive ∧ (s'.obj o).w.tag = (s.obj o).w.tag ∧
+      ((s'.obj o).w.ex = (s.obj o).w.ex ∨ seg.any (isSetex o) = true) := by
+  intro seg
+  induction seg with
+  | nil => intro s s' _ h _ _ ha; simp at h; subst h; exact ⟨ha, rfl, Or.inl rfl⟩
+  | cons e es ih =>
+    intro s s' hi h heq hnp hact
+    simp only [runLog] at h
+    cases hs : step s e with
+    | none => simp [hs] at h
+    | some s1 =>
+      simp only [hs] at h
+      have h1 := obj_step s s1 e hs o
+      have h2 := obj_log es s1 s' h o
+      have e1 : (s1.obj o).epoch = (s.obj o).epoch := by omega
+      have hnp1 : pendingish (s1.obj o).w = false := by
+        cases hp : pendingish (s1.obj o).w with
+        | false => rfl
+        | true => have := h1.2 e1 hp; rw [hnp] at this; cases this
+      obtain ⟨ha1, ht1, hx1⟩ := ih s1 s' (step_inv s s1 e hi hs) h (by omega) hnp1 hact
+      obtain ⟨ha0, ht0, hx0⟩ := ex_step s s1 e hi hs o e1 hnp ha1
+      refine ⟨ha0, by omega, ?_⟩
+      rcases hx1 with hx1 | hx1
+      · rcases hx0 with hx0 | hx0
+        · left; rw [hx1, hx0]
+        · right; simp [hx0]
+      · right; simp [hx1]
+
+/-! ### Quiescence -/
+
+/-- internal events of the protocol model: they continue an operation in progress (same
+    classification as `C01.Internal`, which is stated for the model with the coroutine layer).
+    Not internal: creation / recycling / destruction of a thread object, the entry of a new wake-up
+    request, `abort_all_suspended_threads` (`sw.set` on a suspended thread), the fetch of the restart
+    state and the harness' body notes. -/
+def Internal : Ev → Bool
+  | .new _ _ _ => false
+  | .rebind _ _ _ => false
+  | .destroy _ _ _ => false
+  | .stsEnter _ _ _ => false
+  | .setex _ _ _ _ => false
+  | .set _ _ before _ => before.st != sSuspended
+  | .bodyEnter _ _ => false
+  | .bodyExit _ _ => false
+  | _ => true
+
+/-- nothing in progress can take a step -/
+def Quiescent (s : St) : Prop := ∀ e, Internal e = true → step s e = none
+
+/-- a state in which every constructed object is at rest (scheduled once, no queue entry, holder,
+    pusher, owner, no outstanding helper) and no actor is inside `set_thread_state` or
+    `set_active_state` is quiescent -/
+theorem quiescent_of_rest (s : St)
+    (hobj : ∀ o, (s.obj o).live = true → (s.obj o).fresh = false ∧ (s.obj o).q = 0 ∧ (s.obj o).holder = none ∧
+      (s.obj o).pusher = none ∧ (s.obj o).owner = none ∧ (s.obj o).helpers = [])
+    (hact : ∀ a, (s.act a).sts = .out ∧ (s.act a).sas = none) : Quiescent s := by
+  intro e hI
+  cases e with
+  | new a o w => simp [Internal] at hI
+  | rebind a o w => simp [Internal] at hI
+  | destroy a o w => simp [Internal] at hI
+  | stsEnter a o ns => simp [Internal] at hI
+  | setex a o b af => simp [Internal] at hI
+  | bodyEnter a o => simp [Internal] at hI
+  | bodyExit a o => simp [Internal] at hI
+  | set a o b af =>
+    simp only [Internal, bne_iff_ne, ne_eq] at hI
+    cases hl : (s.obj o).live with
+    | false => simp [step, hl]
+    | true =>
+      obtain ⟨h1, h2, h3, h4, h5, h6⟩ := hobj o hl
+      by_cases hb : b = (s.obj o).w
+      · subst hb; simp [step, hl, h4, hI]
+      · simp [step, hl, hb]
+  | push a o | got a o w f | tagged a o b af | phaseBegin a o | phaseEnd a o r | restore1 a o b af
+  | sasLoad a o c p =>
+    cases hl : (s.obj o).live with
+    | false => simp [step, hl]
+    | true =>
+      obtain ⟨h1, h2, h3, h4, h5, h6⟩ := hobj o hl
+      simp [step, hl, h1, h2, h3, h4, h5, h6, (hact a).1, (hact a).2]
+  | stsLoad a o w | restore2 a o b af | stsNoop a o | stsHelper a o | stsDone a o | sasAbort a o | sasRetry a o =>
+    simp [step, (hact a).1, (hact a).2]
+
 end PikaVerif.Sched
